@@ -13,6 +13,8 @@ impl Duration {
   pub fn from_secs(s: u64) -> (r: Duration) ensures r.ns() == s as nat * 1_000_000_000 { unimplemented!() }
   #[verifier::external_body]
   pub fn as_millis(&self) -> (r: u128) ensures r as nat == self.ns() / 1_000_000 { unimplemented!() }
+  #[verifier::external_body]
+  pub fn is_zero(&self) -> (r: bool) ensures r == (self.ns() == 0) { unimplemented!() }
 }
 impl Instant {
   pub uninterp spec fn ns(&self) -> nat;
